@@ -77,6 +77,20 @@ def starting_level_local(b):
             cd, _ = q.origin_thru(b, chain, transparent=set())
             if cd["k"] == "call" and cd["t"]["f"]["name"] in ("next_back", "last"):
                 return t["dest"]["l"], i
+    # the same as a `match stack().next_back() { Some(d) => level(d.variable), None => 0 }`: a local with exactly two definitions,
+    # the constant 0 and the result of `level(..)`, selected by the Option that next_back() / last() returned
+    for l in range(1, len(b.locals)):
+        ds = b.defs_of(l)
+        if len(ds) != 2:
+            continue
+        zero = [d for d in ds if d[1] != "term" and d[2]["k"] == "use" and d[2]["o"].get("k") == "const" and d[2]["o"].get("v") == 0]
+        lvl = [d for d in ds if d[1] == "term" and d[2].get("f") and d[2]["f"]["name"] == "level"]
+        if len(zero) == 1 and len(lvl) == 1:
+            for c in q.conds(b, ()):
+                if c.kind == "discr" and (c.adt or "").endswith("option::Option") and c.src and c.src.get("k") == "call" and \
+                        c.src["t"]["f"]["name"] in ("next_back", "last") and c.target("Some") is not None and c.target("None") is not None:
+                    if q.edge_dominates(b, c.bb, c.target("Some"), lvl[0][0]) and q.edge_dominates(b, c.bb, c.target("None"), zero[0][0]):
+                        return l, lvl[0][0]
     return None, None
 
 
